@@ -357,7 +357,9 @@ pub fn code_terminal(input: ParseString) -> ParseResult<Option<Comment>> {
 pub fn mech_code(input: ParseString) -> ParseResult<Vec<(MechCode,Option<Comment>)>> {
   let mut output = vec![];
   let mut new_input = input.clone();
+  #[cfg(mech_verif)] let mut verif_guard = crate::verif::LoopGuard::new("mech_code");
   loop {
+    #[cfg(mech_verif)] verif_guard.tick(new_input.cursor);
 
     if peek(not_mech_code)(new_input.clone()).is_ok() {
       if output.len() > 0 {
